@@ -198,8 +198,9 @@ func GHASH(H []byte, A []byte, C []byte) (X []byte) {
 func GetY0(H, IV []byte) []byte {
 	if len(IV)*8 == 96 {
 		zero31one1 := []byte{0x00, 0x00, 0x00, 0x01}
-		IV = append(IV, zero31one1...)
-		return IV
+		Y0 := make([]byte, 0, BlockSize)
+		Y0 = append(Y0, IV...)
+		return append(Y0, zero31one1...)
 	} else {
 		return GHASH(H, []byte{}, IV)
 	}
